@@ -223,6 +223,7 @@ fn inline_image(lexer: &mut Lexer, resolve: &impl Resolve) -> Result<Arc<ImageXO
 
 struct OpBuilder {
     last: Point,
+    start: Option<Point>,
     compability_section: bool,
     ops: Vec<Op>
 }
@@ -230,6 +231,7 @@ impl OpBuilder {
     fn new() -> Self {
         OpBuilder {
             last: Point { x: 0., y: 0. },
+            start: None,
             compability_section: false,
             ops: Vec::new()
         }
@@ -279,11 +281,13 @@ impl OpBuilder {
 
         match op {
             "b"   => {
+                if let Some(s) = self.start { self.last = s; }
                 push(Op::Close);
                 push(Op::FillAndStroke { winding: NonZero });
             },
             "B"   => push(Op::FillAndStroke { winding: NonZero }),
             "b*"  => {
+                if let Some(s) = self.start { self.last = s; }
                 push(Op::Close);
                 push(Op::FillAndStroke { winding: EvenOdd });
             }
@@ -342,7 +346,10 @@ impl OpBuilder {
             "G"   => push(Op::StrokeColor { color: Color::Gray(number(&mut args)?) }),
             "g"   => push(Op::FillColor { color: Color::Gray(number(&mut args)?) }),
             "gs"  => push(Op::GraphicsState { name: name(&mut args)? }),
-            "h"   => push(Op::Close),
+            "h"   => {
+                push(Op::Close);
+                if let Some(s) = self.start { self.last = s; }
+            }
             "i"   => push(Op::Flatness { tolerance: number(&mut args)? }),
             "ID"  => bail!("Parse Error. Unexpected 'ID'"),
             "j"   => {
@@ -382,13 +389,19 @@ impl OpBuilder {
                 let p = point(&mut args)?;
                 push(Op::MoveTo { p });
                 self.last = p;
+                self.start = Some(p);
             }
             "M"   => push(Op::MiterLimit { limit: number(&mut args)? }),
             "MP"  => push(Op::MarkedContentPoint { tag: name(&mut args)?, properties: None }),
             "n"   => push(Op::EndPath),
             "q"   => push(Op::Save),
             "Q"   => push(Op::Restore),
-            "re"  => push(Op::Rect { rect: rect(&mut args)? }),
+            "re"  => {
+                let rect = rect(&mut args)?;
+                push(Op::Rect { rect });
+                self.last = Point { x: rect.x, y: rect.y };
+                self.start = Some(self.last);
+            }
             "RG"  => push(Op::StrokeColor { color: Color::Rgb(rgb(&mut args)?) }),
             "rg"  => push(Op::FillColor { color: Color::Rgb(rgb(&mut args)?) }),
             "ri"  => {
@@ -398,6 +411,7 @@ impl OpBuilder {
                 push(Op::RenderingIntent { intent });
             },
             "s"   => {
+                if let Some(s) = self.start { self.last = s; }
                 push(Op::Close);
                 push(Op::Stroke);
             }
@@ -551,6 +565,7 @@ pub fn serialize_ops(mut ops: &[Op]) -> Result<Vec<u8>> {
 
     let mut data = Vec::new();
     let mut current_point = None;
+    let mut subpath_start = None;
     let f = &mut data;
 
     while ops.len() > 0 {
@@ -577,7 +592,7 @@ pub fn serialize_ops(mut ops: &[Op]) -> Result<Vec<u8>> {
                 writeln!(f, " MP")?;
             }
             Op::EndMarkedContent => writeln!(f, "EMC")?,
-            Op::Close => match ops.get(1) {
+            Op::Close => { match ops.get(1) {
                 Some(Op::Stroke) => {
                     writeln!(f, "s")?;
                     advance += 1;
@@ -592,9 +607,13 @@ pub fn serialize_ops(mut ops: &[Op]) -> Result<Vec<u8>> {
                 }
                 _ => writeln!(f, "h")?,
             }
+                if subpath_start.is_some() { current_point = subpath_start; }
+            }
+
             Op::MoveTo { p } => {
                 writeln!(f, "{} m", p)?;
                 current_point = Some(p);
+                subpath_start = Some(p);
             }
             Op::LineTo { p } => {
                 writeln!(f, "{} l", p)?;
@@ -610,7 +629,11 @@ pub fn serialize_ops(mut ops: &[Op]) -> Result<Vec<u8>> {
                 }
                 current_point = Some(p);
             },
-            Op::Rect { rect } => writeln!(f, "{} re", rect)?,
+            Op::Rect { rect } => {
+                writeln!(f, "{} re", rect)?;
+                current_point = Some(Point { x: rect.x, y: rect.y });
+                subpath_start = current_point;
+            }
             Op::EndPath => writeln!(f, "n")?,
             Op::Stroke => writeln!(f, "S")?,
             Op::FillAndStroke { winding: Winding::NonZero } => writeln!(f, "B")?,
